@@ -192,7 +192,41 @@ func runRequest(w *worldRun, cmd *command.Commander, ctx context.Context, res *r
 	res.RowPresentAtReturn = len(rowFor(rs, logs, w.SeedLen)) > 0
 }
 
+var prewarmed = map[string]bool{}
+
+// prewarm compiles every script the scenario can run into the process-wide compilation cache before exploration starts,
+// so that cache hit / miss never differs between two executions of the same schedule (it would change the number of
+// scheduling points in the statement-granularity build).
+func prewarm(spec *worldSpec) {
+	if prewarmed[spec.Name] {
+		return
+	}
+	prewarmed[spec.Name] = true
+	st := memstore.New()
+	if spec.Seed != nil {
+		spec.Seed(st)
+	}
+	f := memstore.Fold(st.Snapshot())
+	for _, reqs := range [][]reqSpec{spec.Gen1, spec.Gen2} {
+		for i := range reqs {
+			rs := &reqs[i]
+			switch rs.Kind {
+			case "create":
+				_, _ = sharedCompiler.Compile(rs.runScript().Plain)
+			case "revert":
+				if tx := f.Tx(fmt.Sprint(rs.TxID)); tx != nil {
+					rt := tx.Reverse()
+					for _, force := range []bool{false, true} {
+						_, _ = sharedCompiler.Compile(ledger.TxToScriptData(ledger.TransactionData{Postings: rt.Postings}, force).Plain)
+					}
+				}
+			}
+		}
+	}
+}
+
 func runWorld(spec *worldSpec, r *explore.Replayer) *worldRun {
+	prewarm(spec)
 	w := &worldRun{Spec: spec, Store: memstore.New()}
 	if spec.Seed != nil {
 		spec.Seed(w.Store)
